@@ -268,53 +268,99 @@ Proof.
 Qed.
 
 (* ---------- readRawHeaders = "offset after the first blank line" ---------- *)
-Lemma rrh_loop_spec fuel b m n :
-  m <= length b -> length b - m < fuel ->
-  rrh_loop fuel b m n = Ok (head_len_aux true CurEmpty (skipn m b) n).
+(* the copy readRawHeaders stores: nothing when the block is empty, else the whole block *)
+Definition first_blank (buf : bytes) : bool :=
+  match index_byte buf LF with Some i => blank_line (firstn i buf) | None => false end.
+Definition raw_of (buf : bytes) (n : nat) : bytes := if first_blank buf then [] else firstn n buf.
+Definition raw_res (buf : bytes) (o : option nat) : option (bytes * nat) :=
+  match o with Some n => Some (raw_of buf n, n) | None => None end.
+
+Lemma skipn_skipn {A} a b (l : list A) : skipn a (skipn b l) = skipn (b + a) l.
+Proof. revert l; induction b as [|b IH]; intros l; [reflexivity|]. destruct l; cbn; [now rewrite skipn_nil|apply IH]. Qed.
+
+Lemma rrh_loop_spec fuel buf b m n :
+  m <= length b -> length b - m < fuel -> skipn m b = skipn n buf -> n <= length buf ->
+  rrh_loop fuel buf b m n =
+    Ok (match head_len_aux true CurEmpty (skipn m b) n with Some k => Some (firstn k buf, k) | None => None end).
 Proof.
-  revert b m n; induction fuel as [|fuel IH]; intros b m n Hm Hf; [lia|].
+  revert b m n; induction fuel as [|fuel IH]; intros b m n Hm Hf Hsk Hn; [lia|].
   cbn [rrh_loop]. rewrite slice_from by exact Hm. cbn [bind].
   destruct (index_byte (skipn m b) LF) as [i|] eqn:Ei.
   - destruct (index_byte_split _ _ _ Ei) as (l & r & Eb & Hli & Hl). rewrite Eb. subst i.
     rewrite head_len_aux_line by exact Hl. rewrite cur_after_blank.
     assert (Hlen : length (skipn m b) = length l + 1 + length r) by (rewrite Eb, app_length; cbn; lia).
-    rewrite skipn_length in Hlen.
-    assert (Hrec : rrh_loop fuel (l ++ LF :: r) (S (length l)) (n + S (length l)) =
-                   Ok (head_len_aux true CurEmpty r (n + length l + 1))).
+    assert (Hlen2 : length (skipn n buf) = length l + 1 + length r) by (rewrite <- Hsk; exact Hlen).
+    rewrite skipn_length in Hlen, Hlen2.
+    assert (Hskr : skipn (S (length l)) (l ++ LF :: r) = r).
+    { replace (S (length l)) with (length (l ++ [LF])) by (rewrite app_length; cbn; lia).
+      replace (l ++ LF :: r) with ((l ++ [LF]) ++ r) by (rewrite <- app_assoc; reflexivity).
+      rewrite skipn_app, skipn_all, Nat.sub_diag. reflexivity. }
+    assert (Hrec : rrh_loop fuel buf (l ++ LF :: r) (S (length l)) (n + S (length l)) =
+                   Ok (match head_len_aux true CurEmpty r (n + length l + 1) with
+                       | Some k => Some (firstn k buf, k) | None => None end)).
     { rewrite IH.
-      - f_equal. replace (S (length l)) with (length l + 1) by lia.
-        replace (l ++ LF :: r) with ((l ++ [LF]) ++ r) by (rewrite <- app_assoc; reflexivity).
-        rewrite skipn_app, skipn_all2 by (rewrite app_length; cbn; lia).
-        rewrite app_length. cbn [length]. rewrite Nat.sub_diag. cbn [skipn app].
-        f_equal. lia.
+      - rewrite Hskr. replace (n + S (length l)) with (n + length l + 1) by lia. reflexivity.
       - rewrite app_length. cbn. lia.
-      - rewrite app_length. cbn [length]. lia. }
+      - rewrite app_length. cbn [length]. lia.
+      - rewrite Hskr. rewrite <- skipn_skipn, <- Hsk, Eb. symmetry. exact Hskr.
+      - lia. }
     rewrite Hrec. clear Hrec IH.
-    destruct l as [|x [|y l']]; cbn.
-    + do 2 f_equal. lia.
-    + rewrite orb_false_r. destruct (N.eqb x CR); [do 2 f_equal; lia|reflexivity].
+    assert (Hsl : slice buf 0 (n + S (length l)) = Ok (firstn (n + S (length l)) buf)).
+    { rewrite slice_to by lia. reflexivity. }
+    replace (n + length l + 1) with (n + S (length l)) by lia.
+    destruct l as [|x [|y l']]; cbn [length Nat.eqb bind idx nth_error app blank_line orb] in *.
+    + rewrite Hsl. reflexivity.
+    + rewrite orb_false_r. destruct (N.eqb x CR); [|reflexivity].
+      rewrite Hsl. reflexivity.
     + reflexivity.
   - now rewrite head_len_aux_noLF.
 Qed.
 
-Lemma readRawHeaders_spec buf : readRawHeaders buf = Ok (head_len_aux true CurEmpty buf 0).
+Lemma readRawHeaders_spec buf :
+  readRawHeaders buf = Ok (raw_res buf (head_len_aux true CurEmpty buf 0)).
 Proof.
-  unfold readRawHeaders.
+  unfold readRawHeaders, raw_res, raw_of, first_blank.
   destruct (index_byte buf LF) as [i|] eqn:Ei; [|now rewrite head_len_aux_noLF].
-  destruct (index_byte_split _ _ _ Ei) as (l & r & -> & Hli & Hl). subst i.
-  rewrite head_len_aux_line by exact Hl. rewrite cur_after_blank.
-  assert (Hrec : rrh_loop (S (length (l ++ LF :: r))) (l ++ LF :: r) (length l + 1) (length l + 1) =
-                 Ok (head_len_aux true CurEmpty r (0 + length l + 1))).
-  { rewrite rrh_loop_spec.
-    - f_equal.
-      replace (l ++ LF :: r) with ((l ++ [LF]) ++ r) by (rewrite <- app_assoc; reflexivity).
-      rewrite skipn_app, skipn_all2 by (rewrite app_length; cbn; lia).
-      rewrite app_length. cbn [length]. rewrite Nat.sub_diag. cbn [skipn app]. reflexivity.
-    - rewrite app_length. cbn. lia.
-    - rewrite app_length. cbn. lia. }
+  destruct (index_byte_split _ _ _ Ei) as (l & r & E & Hli & Hl). subst i.
+  assert (Hfl : firstn (length l) buf = l).
+  { rewrite E. rewrite firstn_app, Nat.sub_diag, firstn_all. cbn. apply app_nil_r. }
+  rewrite Hfl.
+  assert (Hhl : head_len_aux true CurEmpty buf 0 =
+                if blank_line l then Some (0 + length l + 1) else head_len_aux true CurEmpty r (0 + length l + 1)).
+  { rewrite E. rewrite head_len_aux_line by exact Hl. now rewrite cur_after_blank. }
+  rewrite Hhl.
+  assert (Hlen : length buf = length l + 1 + length r) by (rewrite E, app_length; cbn; lia).
+  assert (Hskr : skipn (length l + 1) buf = r).
+  { rewrite E. replace (length l + 1) with (length (l ++ [LF])) by (rewrite app_length; cbn; lia).
+    replace (l ++ LF :: r) with ((l ++ [LF]) ++ r) by (rewrite <- app_assoc; reflexivity).
+    rewrite skipn_app, skipn_all, Nat.sub_diag. reflexivity. }
+  assert (Hrec : rrh_loop (S (length buf)) buf buf (length l + 1) (length l + 1) =
+                 Ok (match head_len_aux true CurEmpty r (0 + length l + 1) with
+                     | Some k => Some (firstn k buf, k) | None => None end)).
+  { rewrite rrh_loop_spec; try lia; [|reflexivity]. rewrite Hskr. reflexivity. }
   rewrite Hrec. clear Hrec.
-  destruct l as [|x [|y l']]; cbn.
+  assert (Hidx : idx buf 0 = match l with x :: _ => Ok x | [] => Ok LF end).
+  { rewrite E. destruct l; reflexivity. }
+  destruct l as [|x [|y l']]; cbn [length Nat.eqb bind app blank_line orb].
   - reflexivity.
-  - rewrite orb_false_r. destruct (N.eqb x CR); reflexivity.
+  - rewrite Hidx. cbn [bind]. rewrite orb_false_r. destruct (N.eqb x CR); reflexivity.
   - reflexivity.
+Qed.
+
+(* the stored copy does not depend on what follows a complete block *)
+Lemma raw_of_app rest z : head_len_aux true CurEmpty rest 0 = Some (length rest) ->
+  raw_of (rest ++ z) (length rest) = raw_of rest (length rest).
+Proof.
+  intros HC. unfold raw_of, first_blank.
+  destruct (index_byte rest LF) as [i|] eqn:Ei; [|now rewrite head_len_aux_noLF in HC].
+  destruct (index_byte_split _ _ _ Ei) as (l & r & E & Hli & Hl). subst i.
+  assert (Ei' : index_byte (rest ++ z) LF = Some (length l)).
+  { rewrite E, <- app_assoc. cbn [app]. now apply index_byte_here. }
+  rewrite Ei'.
+  assert (Hf1 : firstn (length l) (rest ++ z) = l).
+  { rewrite E, <- app_assoc. rewrite firstn_app, Nat.sub_diag, firstn_all. cbn. apply app_nil_r. }
+  assert (Hf2 : firstn (length l) rest = l).
+  { rewrite E. rewrite firstn_app, Nat.sub_diag, firstn_all. cbn. apply app_nil_r. }
+  rewrite Hf1, Hf2. destruct (blank_line l); [reflexivity|].
+  rewrite firstn_app, Nat.sub_diag, firstn_all. cbn. apply app_nil_r.
 Qed.
